@@ -478,6 +478,43 @@ def desugar(rec, prog, stats):
             stats.setdefault(rec["path"], []).append("desugar:" + c.rsplit("::", 1)[1])
             changed = True
             continue
+        if c in ("core::bool::<impl bool>::then", "core::bool::<impl bool>::then_some") and len(t["args"]) == 2 and not t["dest"]["proj"]:
+            # cond.then(f) / cond.then_some(v)  ->  if cond { Some(f()) } else { None }
+            cnd, f_ = t["args"]
+            dty = rec["locals"][t["dest"]["local"]]
+            if not (dty.get("k") == "adt" and dty.get("args")):
+                continue
+            pay = dty["args"][0]
+            line = t.get("line")
+            nb = len(rec["blocks"])
+            n = len(rec["locals"])
+            rec["locals"].append(pay)
+            if c.endswith("then_some"):
+                rec["blocks"].append({"stmts": [{"k": "assign", "place": {"local": n, "proj": []}, "rv": {"k": "use", "op": copy.deepcopy(f_)}, "line": line}],
+                                      "term": {"k": "goto", "target": nb + 1}})
+            else:
+                fty = rec["locals"][f_["place"]["local"]] if f_["k"] in ("move", "copy") and not f_["place"]["proj"] else None
+                if not fty or fty.get("k") != "closure":
+                    rec["locals"].pop()
+                    continue
+                unit = len(rec["locals"])
+                rec["locals"].append({"k": "tuple", "elems": []})
+                rec["blocks"].append({"stmts": [{"k": "assign", "place": {"local": unit, "proj": []}, "rv": {"k": "aggregate", "agg": "tuple", "ops": []}, "line": line}],
+                                      "term": {"k": "call", "callee": "core::ops::FnOnce::call_once", "resolved": None, "cargs": [fty, {"k": "tuple", "elems": []}], "rargs": [],
+                                               "args": [copy.deepcopy(f_), {"k": "move", "place": {"local": unit, "proj": []}}], "dest": {"local": n, "proj": []},
+                                               "target": nb + 1, "line": line}})
+            rec["blocks"].append({"stmts": [{"k": "assign", "place": copy.deepcopy(t["dest"]),
+                                             "rv": {"k": "aggregate", "agg": "adt", "path": "core::option::Option", "variant": 1, "vname": "Some", "args": dty["args"], "is_enum": True,
+                                                    "ops": [{"k": "move", "place": {"local": n, "proj": []}}]}, "line": line}],
+                                  "term": {"k": "goto", "target": t["target"]}})
+            rec["blocks"].append({"stmts": [{"k": "assign", "place": copy.deepcopy(t["dest"]),
+                                             "rv": {"k": "aggregate", "agg": "adt", "path": "core::option::Option", "variant": 0, "vname": "None", "args": dty["args"], "is_enum": True, "ops": []},
+                                             "line": line}],
+                                  "term": {"k": "goto", "target": t["target"]}})
+            blk["term"] = {"k": "switch", "discr": copy.deepcopy(cnd), "dty": {"k": "bool"}, "arms": [[0, nb + 2]], "otherwise": nb, "line": line}
+            stats.setdefault(rec["path"], []).append("desugar:" + c.rsplit("::", 1)[1])
+            changed = True
+            continue
         if c == "core::option::Option::<T>::ok_or" and not t["dest"]["proj"] and len(t["args"]) == 2:
             preds = _preds(rec)
             B = t["target"]
